@@ -148,7 +148,7 @@ func (c *Ctx) parserRoles0() *ParserRoles {
 			if c.calls(f, reduceFn) {
 				pr.ReduceM = f
 			}
-			if c.calls(f, lexNext) && !c.calls(f, lexPeek) {
+			if c.calls(f, lexNext) && !c.calls(f, lexPeek) && f.Signature.Params().Len() == 0 {
 				pr.ShiftM = f
 			}
 			ps, rs := f.Signature.Params(), f.Signature.Results()
@@ -166,6 +166,9 @@ func (c *Ctx) parserRoles0() *ParserRoles {
 				pr.TokToLit = f
 			}
 		}
+	}
+	if pr.ShiftM == nil {
+		pr.ShiftM = lexNext // the parse loop reads tokens with Lexer.Next directly
 	}
 	if pr.ParseLoop == nil || pr.ReduceM == nil || pr.ShouldShift == nil {
 		pr.Err = "parser methods not resolved (parse loop / reduce / shift predicate)"
@@ -252,6 +255,9 @@ func (c *Ctx) driverRoles() *DriverRoles {
 				}
 			}
 			continue
+		}
+		if ps.Len() == 1 && isEmptyInterface(ps.At(0).Type()) && rs.Len() == 1 && isBool(rs.At(0).Type()) && c.calls(dr.Render, f) {
+			dr.IsSimple = f
 		}
 		if ps.Len() == 3 && rs.Len() == 2 && isStringType(ps.At(0).Type()) && isStringType(ps.At(1).Type()) && c.calls(dr.RenderParam, f) {
 			// distinguish by the operator branch the call sits in
